@@ -3,12 +3,12 @@
     Only statements, each closed by [exact] of a lemma of [Coinswap/Proofs*.v], with
     [Print Assumptions] beneath.  All amounts, reserves and supplies are unbounded integers;
     histories are arbitrary lists of messages (swaps single/double hop, sell/buy, any recipient;
-    two-sided and one-sided add/remove; bank transfers, i.e. donations; block boundaries) by any
-    accounts.  Pool [n] with counterparty denom [cp]:
+    two-sided and one-sided add/remove; bank transfers, i.e. donations; block boundaries;
+    MsgUpdateParams, i.e. the fees may change in mid-history) by any accounts.  Pool [n] with counterparty denom [cp]:
       [reserve_std s n] = bank balance of the pool's escrow address in the standard denom,
       [reserve_tok s cp n] = its balance in [cp], [liquidity s n] = bank supply of "lpt-n". *)
 From Irismod Require Import Coinswap.Model Coinswap.Check Coinswap.ProofsArith Coinswap.ProofsSpec
-  Coinswap.Proofs Coinswap.ProofsValue Coinswap.ProofsSound.
+  Coinswap.Proofs Coinswap.ProofsValue Coinswap.ProofsSound Coinswap.ProofsEncode.
 
 Local Open Scope Z_scope.
 
@@ -114,7 +114,10 @@ Theorem step_value_monotone :
 Proof. exact step_value_monotone_lemma. Qed.
 Print Assumptions step_value_monotone.
 
-(** whole histories: after any prefix [pre], over any continuation [mid] during which the pool's
+(** whole histories, INCLUDING parameter changes (a MsgUpdateParams is a step like any other: it
+    succeeds only for the authority and only with parameters in range, which keeps [Inv]; the value
+    per share does not depend on which in-range fee is in force at which step): after any prefix [pre],
+    over any continuation [mid] during which the pool's
     liquidity stays positive ([all_pos]: at every intermediate state, both ends included), the
     value per share at the end is at least the value at the start *)
 Theorem history_value_monotone :
@@ -175,6 +178,26 @@ Theorem check_predicate_holds_on_failed_step :
 Proof. exact c01_step_model_fail. Qed.
 Print Assumptions check_predicate_holds_on_failed_step.
 
+(** ** [model_passes_check]: the checker itself, on the driver's encoding of a model history
+
+    [encode_steps U D s0 ms] is what the driver would print for the history [ms] if the implementation
+    behaved as the model: per step the outcome code, the response, the signed differences of every
+    changed ledger entry of the observed universe [U] and of every changed supply among [D], the
+    registry and the parameters.  [check_case_C01] (the function evaluated by [vm_compute] on every
+    implementation trace: it rebuilds the observed worlds from the differences with [next_world],
+    compares them with the model, and evaluates the property's predicate on them) answers
+    (-1, -1, 0) — no divergence, no violation — for every genesis, every history of messages signed by
+    users or the authority, and every universe that covers what the history touches. *)
+Theorem model_passes_check :
+  forall (p : params) (start : Z) (gl : list ((Z * Z) * Z)) (gs : list (Z * Z))
+         (U : list (Z * Z)) (D : list Z) (ms : list msg),
+    let s0 := init_state (case_of p start gl gs []) in
+    NoDup U -> NoDup D -> covered U D s0 ms ->
+    Inv s0 -> Forall msg_ok ms -> p_cdenom p <= 1000 ->
+    check_case_C01 (case_of p start gl gs (encode_steps U D s0 ms)) = (-1, -1, 0).
+Proof. exact model_passes_check_C01. Qed.
+Print Assumptions model_passes_check.
+
 (** ** the hypotheses are satisfiable, on a history with non-trivial residues: fee 0.3 %, a pool
     created 1000007 : 3000001, a sell, a buy, a two-sided add, a one-sided add, a donation,
     a one-sided remove, a two-sided remove; the value per share strictly grows. *)
@@ -190,13 +213,15 @@ Definition ex_mid : list msg :=
     MAddUni 1 1 1 54321 1 2000;
     MSend 1 1001 0 999;
     MBlock 5;
+    MUpdateParams acct_gov (mkParams 250000000000000000 0 1 std 1);   (* the fee jumps from 0.3 % to 25 % *)
+    MSwap false 0 0 1 4321 0 1 2000;
     MRemoveUni 0 1 0 1 1234 2000;
     MRemove 0 1001 500000 1 1 2000 ].
 
 Example c01_nonvacuous :
   Inv ex_s0 /\ Forall sender_ok ex_mid
   /\ In (1, 1) (pools (run ex_s0 ex_pre)) /\ all_pos (run ex_s0 ex_pre) ex_mid 1
-  /\ codes_of ex_s0 (ex_pre ++ ex_mid) = [0; 0; 0; 0; 0; 0; 0; 0; 0]
+  /\ codes_of ex_s0 (ex_pre ++ ex_mid) = [0; 0; 0; 0; 0; 0; 0; 0; 0; 0; 0]
   /\ let si := run ex_s0 ex_pre in let sj := run ex_s0 (ex_pre ++ ex_mid) in
      reserve_std si 1 * reserve_tok si 1 1 * (liquidity sj 1 * liquidity sj 1)
      < reserve_std sj 1 * reserve_tok sj 1 1 * (liquidity si 1 * liquidity si 1).
